@@ -2,8 +2,10 @@
 
 M1: MC_Rhumb enumerates an exact integer lattice (sphere a = 180/pi so that a degree is a metre; integer latitudes incl. the
 poles, Eps longitudes one ulp either side of the 0 / 180 degree ties, lattice azimuths 0, +-60, +-90, +-120, 180 (+360 k),
-integer distances of either sign up to and beyond the poles) and checks the model invariants (extent <= 180, east-going tie,
-exchange of the end points, reversal, pole folding, direct o inverse).
+integer distances of either sign up to and beyond the poles; call forms x output masks: the three general routines with all 64
+masks and the six overloads; two positions on one line object) and checks the model invariants (extent <= 180, east-going tie,
+exchange of the end points, reversal, pole folding, direct o inverse; an output is written iff requested, an overload is the
+general call with its documented mask and wraps lon2, LONG_UNROLL adds no output; a line has no history).
 M2: every vector is executed on the real Rhumb / RhumbLine, series and exact, on the lattice sphere and (where the rectifying
 latitude stays on the lattice) on oblate / prolate ellipsoids.
 M3: Trace_Rhumb validates the lattice observations against RhumbLattice and the laws of the property on seeded random records:
@@ -11,7 +13,9 @@ the defining expressions (meridian arc over cos azimuth, tan azimuth times isome
 length, area under the course) evaluated in long double by the driver as end-point misses, shortest/east-going course,
 direct o inverse, exchange antisymmetry, additivity along a line, RhumbLine::Position == Rhumb::Direct bit for bit, LONG_UNROLL,
 pole crossing -> documented latitude with NaN longitude and area, series == exact for |f| <= 0.01, cross-class agreement with
-Ellipsoid (MeridianDistance, IsometricLatitude, CircleRadius, Area) and Geodesic::EllipsoidArea."""
+Ellipsoid (MeridianDistance, IsometricLatitude, CircleRadius, Area) and Geodesic::EllipsoidArea; every call form of every
+problem (general routines with a mask that cycles through all 64, all overloads) against the general routine with ALL, the
+default constructor argument and the WGS84 singleton against the three-argument constructor, line inspectors, line re-use."""
 import collections
 import json
 
@@ -22,9 +26,10 @@ LEVEL_TEXT = ('Exact integer TLA+ model of rhumb lines on a sphere lattice (meri
               'through and out of the poles, longitude ties at 0/180 degrees one ulp either side, LONG_UNROLL), model-checked by TLC; '
               'every lattice vector is replayed on the real Rhumb/RhumbLine (series and exact, sphere and ellipsoids) and validated by '
               'TLC; the laws of the property (defining expressions as end-point misses, shortest east-going course, direct o inverse, '
-              'exchange, additivity, line == direct, pole NaN contract, series == exact, cross-class) are validated by TLC on seeded '
-              'random records over 22 ellipsoid configurations with the documented round-off-level bound (15 nm at WGS84 scale plus 8 ulp of the '
-              'length of the course).')
+              'exchange, additivity, line == direct, pole NaN contract, series == exact, cross-class, all call forms and masks == general call, '
+              'constructor family incl. the WGS84 singleton) are validated by TLC on seeded '
+              'random records over 24 ellipsoid configurations (b/a from 1/90 to 90) with the documented round-off-level bound (15 nm at WGS84 scale plus 8 ulp of the '
+              'length of the course; areas: 1e-14 of the authalic radius squared per 180 degrees of longitude).')
 DESIGN_REF = 'DESIGN.md section 4, C09'
 LEVEL_NOTE = ('Trusted: TLC, RhumbLattice.tla, the long-double textbook formulas and adaptive Gauss-Legendre quadrature of drv_rhumb.cpp '
               '(meridian arc, isometric latitude, authalic latitude). Off the lattice the spec is relational: a change below (15 nm x '
@@ -46,8 +51,8 @@ def to_rows(dense):
 def run(ctx):
     dense = not ctx.quick
     base = ('INIT Init\nNEXT Next\nCONSTANTS Part = "%s" NChunks = 32 Dense = %s\n'
-            'INVARIANTS LiInv LdInv Emit\nCHECK_DEADLOCK FALSE\n')
-    parts = [(p, base % (p, 'TRUE' if dense else 'FALSE')) for p in ('li', 'ld')]
+            'INVARIANTS LiInv LdInv LpInv MaskInv Emit\nCHECK_DEADLOCK FALSE\n')
+    parts = [(p, base % (p, 'TRUE' if dense else 'FALSE')) for p in ('li', 'ld', 'lp', 'lm', 'im')]
     nrec = 30000 if ctx.quick else 800000
     rows, traces = vlib.lattice_pipeline(ctx, 'MC_Rhumb', parts, to_rows(dense), 'drv_rhumb', ['replay'],
                                          ['record', ctx.seed, nrec], 'Trace_Rhumb',
@@ -82,6 +87,20 @@ def run(ctx):
                         kinds['dir.guard.turns-clipped'] += 1
                 if e == 'li' and r['tie'] != 'none':
                     kinds['li.tie.' + r['tie']] += 1
+                if e in ('li', 'ld') and r['ci'] >= 16:
+                    kinds['%s.extreme.ci%d' % (e, r['ci'])] += 1
+                if e == 'ld' and 'hist' in r:
+                    kinds['ld.line-history'] += 1
+                if e in ('lm', 'im'):
+                    kinds['%s.%s' % (e, r['form'])] += 1
+                if e in ('inv', 'dir'):
+                    kinds['%s.mask.m%02d' % (e, r['mm'])] += 1
+                    if r['kf'] != 'none':
+                        kinds['%s.kf.%s' % (e, r['kf'])] += 1
+                    if r['dfl'] >= 0:
+                        kinds[e + '.ctor.default-argument'] += 1
+                    if r['wg'] >= 0:
+                        kinds[e + '.ctor.wgs84-singleton'] += 1
     ctx.cov['laws'] = dict(sorted(kinds.items()))
     ctx.cov['exhaustive'] = dense
     return ctx.finish(RULE, TRUSTED)
@@ -90,10 +109,12 @@ def run(ctx):
 RULE = ('vectors enumerated by TLC from MC_Rhumb: inverse problems between 11 latitudes (poles, +-89, +-60, +-30, +-1, 0) x start '
         'longitudes x longitude differences (0, +-1, +-50, +-90, +-179, +-180, +-181, 360, +-540, 720) with -1/0/+1 ulp at the 0 and 180 '
         'degree ties; direct problems from the same latitudes x lattice azimuths x integer distances of either sign up to 720 degrees '
-        '(through both poles); each replayed on 4 (quick) or 7 (thorough) ellipsoid configurations; plus seeded random inverse and '
+        '(through both poles); each replayed on 4 (quick) or 7 (thorough) ellipsoid configurations, start longitude 0 also on f = 0.98 '
+        'and f = -49 (thorough: b/a = 1/10, 10, 1/90, 90); direct and inverse problems x 9 call forms x 64 output masks; pairs of '
+        'positions on one line object; plus seeded random inverse and '
         'direct records (10 generators each: uniform, nearly east-west, exactly east-west, nearly meridional, nearby points 1 nm..1 km, '
         'near the poles, pole end points, ties, latitudes 1-3 ulp apart, integer degrees; cardinal azimuths, tiny distances, beyond the '
-        'pole, just short of / beyond the pole, pole starts, several turns). distinct_nontrivial = distinct lattice vectors.')
+        'pole, just short of / beyond the pole, pole starts, several turns), each with every call form (mask = problem index mod 64). distinct_nontrivial = distinct lattice vectors.')
 TRUSTED = ['TLC', 'RhumbLattice.tla',
            'drv_rhumb.cpp (long-double defining expressions: adaptive 16-point Gauss-Legendre quadrature of rho, rho/R and '
            'sin(xi) rho/R in colatitude from the nearer pole; closed forms for parallels and pole end points; quantisation)']
